@@ -15,8 +15,9 @@ def check(v, tier, opts):
                     "independent statement of floor does not come back from SAT); finer-then-back round trip on |v| < 2^20 (ratio 10^3) / 2^7 (10^6, 10^9)")
     v.bounds.append("NaT absorption: other operand fully symbolic (DateTime/Time any i64; TimeDelta any i32 months, |secs| <= 2^40, every nanosecond part)")
     v.outside.append("TimeDelta / TimeDelta (returns i32, panics by design on NaT); Timelike getters of Time (return u32)")
-    v.outside.append("calendar field getters and round trip through chrono::DateTime (chrono calendar tables: no "
-                     "solver answer in 40-55 min in the design probes); judged against chrono's documented floor contract")
+    v.outside.append("chrono's own calendar tables (no solver answer in 40-55 min in the design probes): the field getters and the round trip "
+                     "through chrono::DateTime are decided in Engine M against chrono's documented calendar contract, which is compared with "
+                     "the real chrono on concrete timestamps each run")
     kani_engine.decide(v, "C16", tier, opts)
     if not opts.get("only") or "mir" in opts.get("only"):
         m_part(v)
@@ -70,6 +71,7 @@ def m_part(v):
                 if not fails and not unk:
                     v.nontrivial += 1
         log(f"  [M] into_unit: 16 unit pairs over the full i64 range, {E.solver.queries} queries, {bad_pairs} failing pairs")
+        calendar_part(v, E)
         v.bounds.append("Engine M: timestamps over the whole i64 range (SMT Int with range constraint), all 16 pairs")
     except (M.ExecError, MirError) as e:
         v.inconcl(f"cannot encode DateTime::into_unit: {e}")
@@ -78,16 +80,93 @@ def m_part(v):
         v.engines["mir2smt"] = {"solver": "z3 4.8.12 (LIA)", "queries": E.solver.queries, "answers": E.solver.stats}
         E.close()
 
+def calendar_part(v, E):
+    """calendar field getters and the round trip through the calendar type, chrono replaced by its calendar contract"""
+    import json, os, random
+    from mir_engine import time_ops as T
+    from common import REPLAYS, ensure_dir, log, seed
+    G = T.find_getters(E)
+    v.functions.update("MIR " + G[g].name for g in T.GETTERS + ("as_cr",))
+    rng = random.Random(1616 + seed())
+    rt = T.calendar_roundtrip()
+    if rt:
+        v.inconcl("calendar model: " + rt)
+    nval = nbad = 0
+    for unit in T.UNITS:
+        n, bad = T.validate_getters(unit, rng)
+        nval += n
+        v.evaluations += n
+        for b in bad[:2]:
+            v.inconcl("calendar model disagrees with chrono on a concrete instant: " + b)
+        for name, mk in (("getters", T.check_getters), ("calendar_roundtrip", T.check_cr_roundtrip)):
+            hname = f"mir_{name}_{T.SHORT[unit]}"
+            dom, run, qs, V, wit = mk(E, G, unit)
+            nq, fails, unk = T.ask_all(E, dom, run, qs, wit)
+            v.evaluations += nq
+            for u in unk[:2]:
+                v.inconcl(f"{hname}: {u}")
+            for msg, model in fails[:1]:
+                key = f"{hname}::{msg}"
+                if v.is_known(key):
+                    v.note_known(key)
+                    continue
+                nbad += 1
+                ts = T.model_ts(unit, model) if name == "getters" else int(model.get("ts", 0))
+                got, want = T.native_getters(unit, ts), T.law_getters(unit, ts)
+                path = os.path.join(ensure_dir(os.path.join(REPLAYS, "C16")), hname + ".json")
+                json.dump({"property": "C16", "kind": "dtget", "unit": unit, "timestamp": ts, "native": got, "law": want, "solver_message": msg},
+                          open(path, "w"), indent=1)
+                if got != want:
+                    v.failure(key, path, f"DateTime<{unit}>({ts}): year/month/day/hour/minute/second/time/round trip natively '{got}', calendar law '{want}'")
+                else:
+                    v.inconcl(f"{hname}: solver counterexample ts={ts} does not reproduce natively; case {path}")
+            if not fails and not unk:
+                v.nontrivial += 1
+    log(f"  [M] calendar getters / round trip: 8 encodings, {nval} concrete timestamps compared with the real chrono, {nbad} with a new counterexample")
+    v.bounds.append("Engine M calendar part: getters on every date-time of 1678..2262 at each unit (symbolic year, month, day, hour, minute, second, "
+                    "fraction digits); DateTime<U> -> chrono::DateTime<Utc> -> DateTime<U> for every timestamp the calendar type can hold")
+    v.assumptions.append("chrono's calendar replaced by the proleptic Gregorian day-number contract (lib/mir_engine/time_ops.py), compared with "
+                         f"the real chrono getters on {nval} concrete timestamps per run")
+
+
+def replay(path):
+    from common import log
+    if path.endswith(".json"):
+        import json
+        from mir_engine import time_ops as T, replay as rp
+        c = json.load(open(path))
+        if c.get("kind") == "dtget":
+            got, want = T.native_getters(c["unit"], c["timestamp"]), T.law_getters(c["unit"], c["timestamp"])
+            log(("REPRODUCED " if got != want else "passes ") + f"{path}: native '{got}', calendar law '{want}'")
+            return 1 if got != want else 0
+        p = rp._get()
+        sh = {"Second": "s", "Millisecond": "ms", "Microsecond": "us", "Nanosecond": "ns"}
+        p.stdin.write(f"into_unit {sh[c['from']]} {sh[c['to']]} {c['timestamp']}\n"); p.stdin.flush()
+        got = p.stdout.readline().strip()
+        bad = got != f"R {c['expected']}"
+        log(("REPRODUCED " if bad else "passes ") + f"{path}: into_unit natively '{got}', expected {c['expected']}")
+        return 1 if bad else 0
+    res = kani_engine.run_playback_file(path, "c16,playback")
+    n = 0
+    for t, panicked, msg in res:
+        log(f"{'REPRODUCED' if panicked else 'passes    '} {t}: {msg[:300]}")
+        n += panicked
+    return 1 if n else 0
+
+
 MANIFEST = {
     "engine": "K+M",
     "technique": "bounded model checking (Kani/CBMC, SAT) of into_unit / NaT guards over symbolic i64 timestamps; MIR->SMT symbolic "
-                 "execution of into_unit over mathematical integers (z3 LIA) for the full-range floor law",
+                 "execution of into_unit over mathematical integers (z3 LIA) for the full-range floor law, and of the calendar field getters / "
+                 "the DateTime <-> chrono::DateTime round trip under chrono's calendar contract",
     "design_ref": "DESIGN.md 3/C16",
     "level_text": "CBMC decides, for every i64 timestamp (NaT laws, finer-unit law: whole representable range; floor law under CBMC: "
                   "quotients within +-2^12 with every residue; under z3 on the MIR: whole i64 range), that DateTime::into_unit for all 16 unit pairs returns NaT for NaT, "
-                  "exact multiples toward finer units and the floor toward coarser units; counterexamples are replayed natively",
-    "level_note": "trusted: Kani's MIR->goto translation, CBMC, CaDiCaL; chrono's documented floor contract stands in for chrono itself; "
-                  "calendar field getters and the chrono round trip are outside the claim",
+                  "exact multiples toward finer units and the floor toward coarser units; z3 decides on the MIR that year/month/day/hour/minute/second/"
+                  "time of every valid date-time of 1678..2262 are the calendar fields of its instant and that DateTime<U> -> calendar type -> "
+                  "DateTime<U> is the identity wherever the calendar type can hold the instant; counterexamples are replayed natively",
+    "level_note": "trusted: Kani's MIR->goto translation, CBMC, CaDiCaL; chrono's documented floor and calendar contract stands in for chrono itself "
+                  "(compared with the real chrono on concrete timestamps every run)",
 }
 
 READY = True
